@@ -11,9 +11,13 @@ VARIABLES sc, out, phase
 Lows == {-INF} \cup (-2..2)
 Ups  == (-2..2) \cup {INF}
 Companions == {<<0, -1, 1>>, <<2, -INF, 1>>, <<-2, -1, INF>>, <<1, -INF, INF>>, <<3, 0, 2>>, <<-3, -2, INF>>}
+\* vfree: the variables themselves are unbounded (the bound pairs then only apply to the linear rows and the non-linear
+\* constraints)
 Init == /\ \E v \in -VMax..VMax : \E lb \in Lows : \E ub \in Ups : \E c \in Companions : \E tol \in {0, 1, 2} : \E tf \in BOOLEAN :
+           \E vfree \in BOOLEAN :
              /\ lb <= ub
-             /\ sc = [v |-> <<v, c[1]>>, lb |-> <<lb, c[2]>>, ub |-> <<ub, c[3]>>, tol |-> tol, tf |-> tf]
+             /\ (vfree => tol = 1)
+             /\ sc = [v |-> <<v, c[1]>>, lb |-> <<lb, c[2]>>, ub |-> <<ub, c[3]>>, tol |-> tol, tf |-> tf, vfree |-> vfree]
         /\ out = <<>> /\ phase = "init"
 Compute == /\ phase = "init" /\ phase' = "done" /\ UNCHANGED sc
            /\ out' = [i \in 1..2 |-> [lower |-> LowerDiff(sc.v[i], sc.lb[i]), upper |-> UpperDiff(sc.v[i], sc.ub[i]),
